@@ -32,7 +32,9 @@ from .common import Report, jdump, repo_path, sig_hash, use_repo
 
 PROPS = ("C07",)
 
-MESSAGES = ("", "note: é語'\"\\\n\x01")
+# the `message` of assertThat / expectThat / assert_that and the annotation of Annotate: no message, text with awkward
+# characters, and annotations that are not text (they must be rendered, not joined as if they were str)
+MESSAGES = ("", "note: é語'\"\\\n\x01", b"bytes \xff\x00", 7, ValueError("exc é"), ("tuple", 1))
 
 
 # ---------------------------------------------------------------------------------------------------------
@@ -161,8 +163,8 @@ def describable(matcher, matchee, mismatch, rot=0, with_expect=False):
             "%r, but a fresh mismatch of the same pair describes itself as %r" % (d1[:120], d0[:120]),
         )
     # one message / verbosity combination per pair, rotating (a matcher meets every combination over its values)
-    msg = MESSAGES[rot % 2]
-    verbose = bool((rot // 2) % 2)
+    msg = MESSAGES[rot % len(MESSAGES)]
+    verbose = bool((rot // len(MESSAGES)) % 2)
     m2 = Annotate.if_message(msg, matcher)
     want = must_str("describe", fresh(m2, matchee).describe) if msg else d0
     mm2 = fresh(m2, matchee)
@@ -583,7 +585,9 @@ def stock_table(tmp):
         "AfterPreprocessing": [(lambda: M.AfterPreprocessing(repr, M.Equals("zz")), any_)],
         "AllMatch": [(lambda: M.AllMatch(M.Equals("zz")), [["é", b"\xff"], [1], "ab\x00"])],
         "Always": [(lambda: M.Always(), [])],
-        "Annotate": [(lambda: M.Annotate("é\x00\n'", M.Never()), any_)],
+        "Annotate": [(lambda: M.Annotate("é\x00\n'", M.Never()), any_), (lambda: M.Annotate(7, M.Never()), [0, "é"]),
+                     (lambda: M.Annotate(b"\xff", M.Never()), [0]), (lambda: M.Annotate(KeyError("é"), M.Never()), [0]),
+                     (lambda: M.Annotate((1, "t"), M.Never()), [0])],
         "AnyMatch": [(lambda: M.AnyMatch(M.Equals("zz")), [[], ["é", b"\xff"], "ab\x00"])],
         "Contains": [(lambda: M.Contains("zz"), strs + [0, ["é"], {"k": 1}]), (lambda: M.Contains(b"zz"), byts)],
         "ContainsAll": [(lambda: M.ContainsAll(["zz", "é"]), strs + [["é"], 0])],
@@ -666,7 +670,7 @@ def part_stock(rep, pool):
                         raise Fail("match-raises", sig_of(mm), repr(mm)[:200])
                     if r == "F":
                         describable(m, x, mm, 0, with_expect=True)
-                        for rot in (1, 2, 3):  # every message / verbosity combination
+                        for rot in range(1, 2 * len(MESSAGES)):  # every message / verbosity combination
                             m = mk()
                             describable(m, x, fresh(m, x), rot, with_expect=True)
                 except Fail as f:
